@@ -52,6 +52,7 @@ inductive Cond
   | wordIsMax (w : WE)          -- `w == UINT32_MAX`
   | ptrLeEnd (x : Nat)          -- `x <= s->text_end`
   | ptrGtEnd (x : Nat)          -- `x > s->text_end`
+  | ptrLe (x y : Nat)           -- `x <= y` (pointers)
   | opIs (n : Nat)              -- `rule[0] == RULE_x` (n = the opcode number)
   | numLtWordPred (n : Nat) (w : WE) -- `n < w - 1`
   | numLtNum (a b : Nat)        -- `a < b` (numeric locals)
@@ -156,6 +157,7 @@ def evalCond (E : Env) (O : Operands ρ) (L : Loc) (s : St) : Cond → Bool
   | .wordIsMax w => evalWE O w == uintMax
   | .ptrLeEnd x => match L.ptr x with | some p => decide (p ≤ s.textEnd) | none => false
   | .ptrGtEnd x => match L.ptr x with | some p => decide (p > s.textEnd) | none => false
+  | .ptrLe x y => match L.ptr x, L.ptr y with | some p, some q => decide (p ≤ q) | _, _ => false
   | .opIs n => O.word 0 == n
   | .numLtWordPred n w => decide (L.num n < evalWE O w - 1)
   | .numLtNum a b => decide (L.num a < L.num b)
